@@ -370,6 +370,18 @@ func checkC11(r *evid.Run) {
 			jobs = append(jobs, job{pc, rq, c, false})
 		}
 	}
+	// the dry run reached through the Mkdir entry point (its own wiring of the error channels): every dry-run job again
+	// as MkdirFromMarkdown + WithDryRun
+	for _, j := range append([]job{}, jobs...) {
+		if j.pc.Sink != "dry" || j.pc.Entry != "md" || j.rq.Stall != nil {
+			continue
+		}
+		j.pc.Sink = "mkdirdry"
+		j.rq.Op = "mkdir"
+		j.rq.Record = false
+		j.validate = false
+		jobs = append(jobs, j)
+	}
 	type traced struct {
 		j  job
 		rp wproto.Rep
